@@ -310,7 +310,13 @@ func (e boundsError) Error() string { return "runtime error: " + e.msg }
 func (boundsError) RuntimeError()   {}
 
 func symIndexAddr(elems []value, idx sym) symAddr {
-	inb := TBin(OpULt, idx.t, TConst(idx.t.W, uint64(len(elems))))
+	// the index is widened to 64 bits by its Go type first: a byte index into a 256-element table is always in
+	// bounds (256 does not fit the index width), a negative signed index never is
+	wide := idx.t
+	if wide.W < 64 {
+		wide = TExt(wide, 64, kindSigned(idx.k))
+	}
+	inb := TBin(OpULt, wide, TConst(64, uint64(len(elems))))
 	if len(elems) == 0 || !X.decide(inb, "bounds") {
 		panic(boundsError{fmt.Sprintf("index out of range [symbolic] with length %d", len(elems))})
 	}
